@@ -8,6 +8,7 @@ import (
 	"testing"
 	"time"
 
+	"ergo.services/ergo/act"
 	"ergo.services/ergo/gen"
 	"pgregory.net/rapid"
 
@@ -16,18 +17,18 @@ import (
 
 // reaction of the callee to one request
 const (
-	mNow    = iota // reply from the handler's return value
-	mSend          // reply with an explicit SendResponse inside the handler, return nil
-	mSelf          // reply later from the callee itself (after a self-addressed message)
-	mThird         // reply from another process
-	mErr           // SendResponseError
-	mTwice         // reply twice with the same reference
-	mStale         // first a reply carrying the reference of an earlier, completed request of this caller, then the proper one
-	mCross         // first a reply carrying another caller's outstanding reference, addressed to this caller, then the proper one
-	mLate          // no reply now; the reply is sent when the next request of the same caller arrives (or at the end)
-	mNever         // never reply
-	mDie           // terminate without replying
-	mFlood         // never reply, while another process keeps sending replies that carry the reference of an earlier, completed request of this caller for the whole timeout
+	mNow   = iota // reply from the handler's return value
+	mSend         // reply with an explicit SendResponse inside the handler, return nil
+	mSelf         // reply later from the callee itself (after a self-addressed message)
+	mThird        // reply from another process
+	mErr          // SendResponseError
+	mTwice        // reply twice with the same reference
+	mStale        // first a reply carrying the reference of an earlier, completed request of this caller, then the proper one
+	mCross        // first a reply carrying another caller's outstanding reference, addressed to this caller, then the proper one
+	mLate         // no reply now; the reply is sent when the next request of the same caller arrives (or at the end)
+	mNever        // never reply
+	mDie          // terminate without replying
+	mFlood        // never reply, while another process keeps sending replies that carry the reference of an earlier, completed request of this caller for the whole timeout
 	nModes
 )
 
@@ -217,10 +218,10 @@ func (m *metaCallee) HandleCall(from gen.PID, ref gen.Ref, request any) (any, er
 	return Rep{ID: r.ID, By: "meta"}, nil
 }
 func (m *metaCallee) HandleInspect(from gen.PID, item ...string) map[string]string { return nil }
-func (m *metaCallee) Terminate(reason error)                                        {}
+func (m *metaCallee) Terminate(reason error)                                       {}
 
 type callOp struct {
-	Target int // 0,1: callee actors; 2: meta-process of callee 0
+	Target int // 0,1: callee actors; 2: meta-process of callee 0; 3: a pool of 2-3 worker actors (requests are forwarded)
 	Addr   int // 0 pid 1 name 2 alias
 	Req    Req
 	// Burn: before this call the caller draws 2^Burn-1 references from the node, so that this
@@ -249,7 +250,7 @@ func (o callOp) String() string {
 }
 
 var recCorr = kit.NewRecorder("C07", "correlation",
-	"1-3 caller processes run scripts of 2-6 calls (1 s timeout) concurrently against 1-2 callee actors (by pid, name, alias) and a meta-process callee; per request the callee's generated reaction is one of {return value, explicit SendResponse, reply later from itself, reply from a third process, SendResponseError, reply twice, reply with the reference of an earlier completed request first, reply with another caller's outstanding reference addressed to this caller first, reply only when the caller's next request arrives (= late reply while the next call waits, before or after the proper reply), never, terminate without reply}; afterwards every withheld reply is flushed and each caller makes one more call per live callee; "+
+	"1-3 caller processes run scripts of 2-6 calls (1 s timeout) concurrently against 1-2 callee actors (by pid, name, alias), a meta-process callee and a pool of 2-3 worker actors that forwards requests (a worker that terminates is replaced when its turn comes again); per request the callee's generated reaction is one of {return value, explicit SendResponse, reply later from itself, reply from a third process, SendResponseError, reply twice, reply with the reference of an earlier completed request first, reply with another caller's outstanding reference addressed to this caller first, reply only when the caller's next request arrives (= late reply while the next call waits, before or after the proper reply), never, terminate without reply}; afterwards every withheld reply is flushed and each caller makes one more call per live callee; "+
 		"oracle: a call returns the reply/error carrying ITS OWN id or a timeout/delivery error, never another id; modes that reply in time must return that reply (callee never terminated in the case), withheld ones must time out; each request id is seen by a callee at most once, exactly once when the call was accepted; "+
 		"non-trivial = a stale reply (late, duplicate, foreign or old reference) was handed to a caller that made a later call; distinct by scripts")
 
@@ -259,13 +260,14 @@ func TestCorrelation(t *testing.T) {
 		ncallees := rapid.IntRange(1, 2).Draw(t, "callees")
 		nextID := 0
 		scripts := make([][]callOp, ncallers)
-		dies, metaDies := false, false
+		dies, metaDies, poolDies := false, false, false
+		poolSize := rapid.IntRange(2, 3).Draw(t, "pool_size")
 		for c := range scripts {
 			n := rapid.IntRange(2, 6).Draw(t, "calls")
 			slowBudget := 2
 			for i := 0; i < n; i++ {
 				var o callOp
-				o.Target = rapid.SampledFrom([]int{0, 0, 1, 2}).Draw(t, "target")
+				o.Target = rapid.SampledFrom([]int{0, 0, 1, 2, 3}).Draw(t, "target")
 				if o.Target == 1 && ncallees == 1 {
 					o.Target = 0
 				}
@@ -288,7 +290,16 @@ func TestCorrelation(t *testing.T) {
 						slowBudget--
 					}
 				}
-				if mode == mDie && o.Target == 2 && !metaDies {
+				if o.Target == 3 {
+					// a worker that dies is replaced by the pool when its turn comes again
+					o.Addr %= 2
+					if mode == mFlood {
+						mode = mNever
+					}
+					if mode == mDie {
+						poolDies = true
+					}
+				} else if mode == mDie && o.Target == 2 && !metaDies {
 					metaDies = true
 				} else if mode == mDie && (o.Target != 1 || dies) {
 					mode = mNever
@@ -368,9 +379,28 @@ func TestCorrelation(t *testing.T) {
 				t.Fatalf("callee setup: %v %v", err, ierr)
 			}
 		}
+		poolState := newCalleeState(helper, flooder)
+		poolName := gen.Atom("calleepool")
+		poolPID, err := node.SpawnRegister(poolName, kit.PoolFactory(&kit.PoolConfig{Label: "pool", Probe: probe,
+			Options: func(args ...any) (act.PoolOptions, error) {
+				return act.PoolOptions{PoolSize: int64(poolSize), WorkerFactory: kit.Factory(&kit.ActorConfig{Label: "poolworker", Probe: probe,
+					OnCall:    poolState.onCall,
+					OnMessage: poolState.onMessage,
+				})}, nil
+			}}), gen.ProcessOptions{})
+		if err != nil {
+			t.Fatalf("spawn pool: %v", err)
+		}
+		states = append(states, poolState)
 		target := func(o callOp) any {
 			if o.Target == 2 {
 				return metaAlias
+			}
+			if o.Target == 3 {
+				if o.Addr == 1 {
+					return poolName
+				}
+				return poolPID
 			}
 			switch o.Addr {
 			case 1:
@@ -420,6 +450,7 @@ func TestCorrelation(t *testing.T) {
 		for i := range calleePID {
 			node.Send(calleePID[i], flush{})
 		}
+		node.Send(poolPID, flush{})
 		kit.WaitUntil(5*time.Second, func() bool {
 			for i := range calleePID {
 				if !kit.Quiesced(node, calleePID[i]) {
@@ -439,6 +470,10 @@ func TestCorrelation(t *testing.T) {
 			}
 			if !metaDies {
 				probes[c] = append(probes[c], callOp{Target: 2, Addr: 2, Req: Req{ID: nextID, Mode: mNow}})
+				nextID++
+			}
+			for k := 0; k < poolSize; k++ { // once around the ring: every worker slot is visited
+				probes[c] = append(probes[c], callOp{Target: 3, Addr: k % 2, Req: Req{ID: nextID, Mode: mNow}})
 				nextID++
 			}
 		}
@@ -506,6 +541,10 @@ func TestCorrelation(t *testing.T) {
 				if (o.Target == 1 && dies) || (o.Target == 2 && metaDies) {
 					continue
 				}
+				if o.Target == 3 && poolDies && ncallers > 1 {
+					// another caller's request may sit in the mailbox of a worker that is terminating
+					continue
+				}
 				accepted := r.err == nil || r.err == gen.ErrTimeout || strings.HasPrefix(r.err.Error(), "callee-error-")
 				if accepted && seen[id] != 1 {
 					t.Fatalf("call %s returned (%v, %v) but the callee saw the request %d times", o, r.value, r.err, seen[id])
@@ -533,6 +572,9 @@ func TestCorrelation(t *testing.T) {
 		}
 		if dies {
 			labels = append(labels, "callee-died")
+		}
+		if poolDies {
+			labels = append(labels, "pool-worker-died")
 		}
 		recCorr.Case(nontrivial && staleOut > 0, sb.String(), labels...)
 	})
